@@ -344,32 +344,30 @@ theorem repeatAxis_error {α} (a : DimArray α) (hn : a.dims.Nodup) (newax : Axi
   simp only [repeatAxis, axisPos_ok a hn k d h, bind, Except.bind, hne, if_true]
 
 theorem newaxis_none_ok {α} (a : DimArray α) (name : String) (pos : Int) (p : Nat) (hnew : name ∉ a.dims)
-    (hp : p ≤ a.ndim) (hpos : pos = (p : Int) ∨ (pos = -1 ∧ p = a.ndim)) :
+    (hp : p ≤ a.ndim) (hpos : pos = (p : Int) ∨ (pos < 0 ∧ pos + (a.ndim : Int) + 1 = (p : Int))) :
     newaxis a name pos none = .ok (insertAt a p (noneAxis name)) := by
   have hc : a.dims.contains name = false := by simpa using hnew
-  have e : (if pos == -1 then (a.ndim : Int) else pos) = (p : Int) := by
+  have e : (if pos < 0 then pos + (a.ndim : Int) + 1 else pos) = (p : Int) := by
     rcases hpos with h | ⟨h, h'⟩
     · subst h
-      have : ((p : Int) == -1) = false := by
-        simp only [beq_eq_false_iff_ne, ne_eq]; omega
-      simp only [this, Bool.false_eq_true, if_false]
-    · subst h; subst h'; rfl
+      have : ¬ ((p : Int) < 0) := by omega
+      simp only [this, if_false]
+    · simp only [h, if_true]; exact h'
   have c : (decide ((p : Int) < 0) || decide ((p : Int) > (a.ndim : Int))) = false := by
     simp only [Bool.or_eq_false_iff, decide_eq_false_iff_not]; omega
   simp only [newaxis, hc, Bool.false_eq_true, if_false, e, c, Int.toNat_natCast]
   rfl
 
 theorem newaxis_some_eq {α} (a : DimArray α) (name : String) (pos : Int) (p : Nat) (v : Axis) (hnew : name ∉ a.dims)
-    (hp : p ≤ a.ndim) (hpos : pos = (p : Int) ∨ (pos = -1 ∧ p = a.ndim)) :
+    (hp : p ≤ a.ndim) (hpos : pos = (p : Int) ∨ (pos < 0 ∧ pos + (a.ndim : Int) + 1 = (p : Int))) :
     newaxis a name pos (some v) = repeatAxis (insertAt a p (noneAxis name)) v (.pos p) := by
   have hc : a.dims.contains name = false := by simpa using hnew
-  have e : (if pos == -1 then (a.ndim : Int) else pos) = (p : Int) := by
+  have e : (if pos < 0 then pos + (a.ndim : Int) + 1 else pos) = (p : Int) := by
     rcases hpos with h | ⟨h, h'⟩
     · subst h
-      have : ((p : Int) == -1) = false := by
-        simp only [beq_eq_false_iff_ne, ne_eq]; omega
-      simp only [this, Bool.false_eq_true, if_false]
-    · subst h; subst h'; rfl
+      have : ¬ ((p : Int) < 0) := by omega
+      simp only [this, if_false]
+    · simp only [h, if_true]; exact h'
   have c : (decide ((p : Int) < 0) || decide ((p : Int) > (a.ndim : Int))) = false := by
     simp only [Bool.or_eq_false_iff, decide_eq_false_iff_not]; omega
   simp only [newaxis, hc, Bool.false_eq_true, if_false, e, c, Int.toNat_natCast]
